@@ -27,6 +27,12 @@ ASSUMPTIONS = [
     "body_subtreemass/invweight0 are separate fields and are held fixed in both AD and FD)",
     "reverse mode is only required where JAX supports it: solver.solve uses lax.while_loop (iterations>1), which JAX cannot "
     "reverse-differentiate, so models with constraint rows are judged in forward mode only",
+    "a mismatch is reported under the signature of a known finding only when that finding's mechanism is confirmed for the "
+    "derivative at hand: rest-state singularities by re-evaluating AD and FD at a base point displaced by 1e-5 in exactly the "
+    "coordinates of the singularity (quaternion tangent + angular velocity of ball/free joints; or non-quaternion dofs along the "
+    "Jacobian of a tendon sitting at its zero-width spring length) - the mismatch must vanish there and persist under the other "
+    "displacement; the reverse-mode NaN by is_wrap_inside.any() plus a counterfactual on the tendon sub-pipeline (NaN with the "
+    "model's flags, finite with the inside-wrap branch off). Unconfirmed mismatches keep their generic signature (violation)",
 ]
 
 GROUPS = ["qacc", "bias_passive", "actuation", "kinematics", "sensordata", "step"]
@@ -104,21 +110,68 @@ def _group_sizes(m):
             "sensordata": m.nsensordata, "step": m.nq + m.nv + m.na}
 
 
-def _rest_cause(mj, m, kind, group, var):
-    """Mechanism attribution for the two defects of the unchanged tree that only exist exactly at the rest state."""
-    if kind != "rest":
+SIG_QUAT = "quaternion-axis-angle-gradient-singular-at-rest"
+SIG_TENDON = "tendon-spring-gradient-zero-at-rest-length"
+DISPLACE = 1e-5   # far outside math.norm's |x| <= 1e-8 'is zero' ball, small enough that AD and FD are compared at the same point
+
+
+def _rot_and_lin_dofs(jnt_type):
+    """dof indices of quaternion (ball / free-rotational) tangent coordinates, and of all other ('linear') coordinates"""
+    rot, lin, vi = [], [], 0
+    for t in jnt_type:
+        if t == 0:
+            lin += [vi, vi + 1, vi + 2]
+            rot += [vi + 3, vi + 4, vi + 5]
+            vi += 6
+        elif t == 1:
+            rot += [vi, vi + 1, vi + 2]
+            vi += 3
+        else:
+            lin.append(vi)
+            vi += 1
+    return np.array(rot, int), np.array(lin, int)
+
+
+def _rest_length_tendon_direction(mj, m, d, lin):
+    """Tendons with a spring whose dead band has zero width (lengthspring lower == upper) sitting exactly at that length in
+    MjData `d`: returns the direction in the non-quaternion dofs that changes their length (sum of Jacobian rows), or None."""
+    if not m.ntendon or not len(lin):
         return None
-    has_quat = any(int(t) in (0, 1) for t in m.jnt_type)
-    if m.ntendon and np.any(np.asarray(m.tendon_stiffness) > 0) and var in ("dq", "mixed") and not has_quat and \
-            group in ("bias_passive", "qacc", "step", "sensordata"):
-        return "tendon-spring-gradient-zero-at-rest-length"
-    if has_quat:
-        # identity quaternions / zero angular velocity: math.norm's where-trick returns a zero gradient at 0, which is wrong
-        # for quat_integrate (step, every RK stage) and quat_to_axis_angle (ball-joint actuator length, ball springs)
-        return "quaternion-axis-angle-gradient-singular-at-rest"
-    if m.ntendon and np.any(np.asarray(m.tendon_stiffness) > 0) and var in ("dq", "mixed"):
-        return "tendon-spring-gradient-zero-at-rest-length"
-    return None
+    ls = np.asarray(m.tendon_lengthspring).reshape(m.ntendon, 2)
+    hit = [t for t in range(m.ntendon) if m.tendon_stiffness[t] > 0 and ls[t, 0] == ls[t, 1]
+           and abs(d.ten_length[t] - ls[t, 0]) <= 1e-9]
+    if not hit:
+        return None
+    J = np.zeros((m.ntendon, m.nv))
+    try:
+        mj.mju_sparse2dense(J, d.ten_J, m.ten_J_rownnz, m.ten_J_rowadr, m.ten_J_colind)
+    except Exception:
+        J = np.array(d.ten_J).reshape(m.ntendon, m.nv)
+    u = np.zeros(m.nv)
+    u[lin] = J[hit][:, lin].sum(axis=0)
+    return u / np.linalg.norm(u) if np.linalg.norm(u) > 1e-9 else None
+
+
+def _confirm_wrap_inside_nan(R, mx, dxb):
+    """Counterfactual for the reverse-mode NaN: jax.grad of ten_length through kinematics -> com_pos -> tendon is non-finite with
+    the model's is_wrap_inside flags and finite (and equal to forward mode) when the inside-wrap branch is switched off."""
+    jax, jp = R.jax, R.jp
+    sm = R.src["smooth"]
+    flags = np.asarray(mx._impl.is_wrap_inside).astype(bool)
+    if not flags.any():
+        return False
+
+    def length(q, mm):
+        d = dxb.replace(qpos=q)
+        d = sm.tendon(mm, sm.com_pos(mm, sm.kinematics(mm, d)))
+        return jp.sum(d.ten_length)
+    try:
+        g_in = np.asarray(jax.jit(jax.grad(lambda q: length(q, mx)))(dxb.qpos))
+        mx_off = mx.tree_replace({"_impl.is_wrap_inside": np.zeros_like(flags)})
+        g_off = np.asarray(jax.jit(jax.grad(lambda q: length(q, mx_off)))(dxb.qpos))
+    except Exception:
+        return False
+    return bool((not np.all(np.isfinite(g_in))) and np.all(np.isfinite(g_off)))
 
 
 def check_model(R, xml, tags, case, P):
@@ -142,7 +195,15 @@ def check_model(R, xml, tags, case, P):
         P.count("skipped_nv0")
         return
     has_rows = int(dx0._impl.nefc) > 0
-    wraps_geom = bool(np.any(np.isin(np.asarray(m.wrap_type), [int(mj.mjtWrap.mjWRAP_SPHERE), int(mj.mjtWrap.mjWRAP_CYLINDER)])))
+    wrap_conf = {}
+
+    def wrap_inside_nan():
+        """the model takes MJX's inside-wrap branch (side site inside the wrapping geom) and that branch is confirmed to be the
+        source of the reverse-mode NaN (see _confirm_wrap_inside_nan); evaluated once per model"""
+        if "v" not in wrap_conf:
+            wrap_conf["v"] = bool(np.asarray(mx._impl.is_wrap_inside).any()) and _confirm_wrap_inside_nan(R, mx, dx0)
+            P.count("wrap_inside_reverse_nan_counterfactual[%s]" % ("confirmed" if wrap_conf["v"] else "not-confirmed"))
+        return wrap_conf["v"]
     modes = ["fwd"] if has_rows else ["fwd", "rev"]
     P.count("models")
     P.count("models_with_constraint_rows" if has_rows else "models_without_constraint_rows")
@@ -217,31 +278,128 @@ def check_model(R, xml, tags, case, P):
                 return jax.vmap(lambda y: flat(y, mx, dxb, W))(X)
             jitted["fns"] = (jax.jit(ad), jax.jit(fdpts))
         jad, jfd = jitted["fns"]
-        try:
-            A = jad(x0, V, mx, dxb, W)
+        eps = [1e-6, 2e-6]
+
+        def evaluate(xb):
+            """AD (jvp along every direction, one reverse pass) and the four finite-difference points per direction at base xb"""
+            A = jad(jp.array(xb), V, mx, dxb, W)
             jax.block_until_ready(A["jvp"])
+            X = []
+            for v in dirs:
+                for e in eps:
+                    X += [np.asarray(xb) + e * v, np.asarray(xb) - e * v]
+            Y = np.asarray(jfd(jp.array(np.stack(X)), mx, dxb, W))
+            return {"f0": np.asarray(A["f"]), "jvp": np.asarray(A["jvp"]), "grad": np.asarray(A["grad"]) if "grad" in A else None,
+                    "Y": Y}
+
+        def fds(E, di):
+            Y, f0 = E["Y"], E["f0"]
+            yp1, ym1, yp2, ym2 = Y[4 * di], Y[4 * di + 1], Y[4 * di + 2], Y[4 * di + 3]
+            return (yp1 - ym1) / (2 * eps[0]), (yp2 - ym2) / (2 * eps[1]), (yp1 - f0) / eps[0], (f0 - ym1) / eps[0]
+
+        def smooth_at(E, di, gi):
+            fd1, fd2, fwd, bwd = fds(E, di)
+            if not np.all(np.isfinite([fd1[gi], fd2[gi], fwd[gi], bwd[gi]])):
+                return False
+            scale = max(abs(fd1[gi]), 1e-4 * (1 + abs(E["f0"][gi])))
+            return not (abs(fd1[gi] - fd2[gi]) > 1e-5 * scale or
+                        abs(fwd[gi] - bwd[gi]) > 1e-3 * max(scale, abs(fwd[gi]), abs(bwd[gi])))
+
+        def err_fwd(E, di, gi):
+            """relative AD-vs-FD error of (direction di, group gi) at the base of E, or None if it cannot be judged there"""
+            a = E["jvp"][di, gi]
+            if not np.isfinite(a) or not smooth_at(E, di, gi):
+                return None
+            fd1 = fds(E, di)[0]
+            scale = max(abs(fd1[gi]), 1e-4 * (1 + abs(E["f0"][gi])))
+            return abs(a - fd1[gi]) / max(scale, abs(a))
+
+        def err_rev(E, di):
+            if E["grad"] is None:
+                return None
+            r = float(E["grad"] @ dirs[di])
+            if not np.isfinite(r) or not all(smooth_at(E, di, gi) for gi, g in enumerate(GROUPS) if sizes[g]):
+                return None
+            fdc = float(cw @ fds(E, di)[0])
+            scale = max(abs(fdc), 1e-4 * (1 + float(np.abs(cw * E["f0"]).sum())))
+            return abs(r - fdc) / max(scale, abs(r))
+
+        try:
+            E0 = evaluate(np.asarray(x0))
         except Exception as e:
             P.count("skipped_mjx_raised[%s]" % type(e).__name__)
             continue
-        f0 = np.asarray(A["f"])
+        f0 = E0["f0"]
         if not np.all(np.isfinite(f0)):
             P.count("skipped_primal_nonfinite")
             continue
-        eps = [1e-6, 2e-6]
-        X = []
-        for v in dirs:
-            for e in eps:
-                X += [np.asarray(x0) + e * v, np.asarray(x0) - e * v]
-        Y = np.asarray(jfd(jp.array(np.stack(X)), mx, dxb, W))
-        jvp = np.asarray(A["jvp"])
-        grad = np.asarray(A["grad"]) if "grad" in A else None
+        jvp, grad = E0["jvp"], E0["grad"]
         cw = np.asarray(CW)
+
+        # ---- confirmation of the two rest-state singularities: displace the base point OUT of the singular point ------------
+        rot, lin = _rot_and_lin_dofs(jnt_type)
+        displaced = {}
+        drng = np.random.Generator(np.random.PCG64(case["key"] ^ 0x51ed270b))
+
+        def displacement(which):
+            th = {k: np.zeros(np.shape(v)) for k, v in theta0.items()}
+            if "Q" in which and len(rot):     # quaternion tangent coordinates and angular velocities of ball / free joints
+                for k in ("dq", "qvel"):
+                    u = drng.normal(size=len(rot))
+                    th[k][rot] = DISPLACE * u / np.linalg.norm(u)
+            if "T" in which:                  # along the non-quaternion dofs that change the rest-length tendons
+                u = _rest_length_tendon_direction(mj, m, d_rest, lin) if d_rest is not None else None
+                if u is None:
+                    return None
+                th["dq"] = th["dq"] + DISPLACE * u
+            v, _ = ravel_pytree({k: jp.array(a) for k, a in th.items()})
+            v = np.asarray(v)
+            return v if np.abs(v).max() > 0 else None
+
+        def at(which):
+            if which not in displaced:
+                u = displacement(which)
+                try:
+                    displaced[which] = evaluate(np.asarray(x0) + u) if u is not None else None
+                except Exception:
+                    displaced[which] = None
+                P.count("rest_displaced_reevaluations[%s]" % which)
+            return displaced[which]
+
+        def rest_cause(di, gi, mode):
+            """Signature of the rest-state singularity that is CONFIRMED to cause this mismatch: the mismatch must disappear (AD
+            matches FD at 1e-4 again, both evaluated at the displaced base) when ONLY the coordinates of that singularity are moved
+            by 1e-5, and must persist when only the other coordinates are moved."""
+            if kind != "rest":
+                return None
+            err = (lambda E: err_fwd(E, di, gi)) if mode == "fwd" else (lambda E: err_rev(E, di))
+            ok = {}
+            for which in ("Q", "T"):
+                E = at(which)
+                e = err(E) if E is not None else None
+                ok[which] = e is not None and e <= 1e-4
+            if ok["Q"] != ok["T"]:
+                P.count("rest_mismatch_confirmed_by_displacement[%s]" % ("quaternion" if ok["Q"] else "tendon"))
+                return SIG_QUAT if ok["Q"] else SIG_TENDON
+            if ok["Q"] and ok["T"]:
+                P.count("rest_mismatch_ambiguous_displacement")
+                return None
+            E = at("QT")
+            e = err(E) if E is not None else None
+            if e is not None and e <= 1e-4:    # both singularities contribute to this derivative
+                P.count("rest_mismatch_confirmed_by_displacement[quaternion+tendon]")
+                return SIG_QUAT
+            P.count("rest_mismatch_not_explained_by_displacement")
+            return None
+
+        d_rest = None
+        if kind == "rest":
+            d_rest = mj.MjData(m)
+            mjxrepo.set_state_dict(m, d_rest, st)
+            mj.mj_forward(m, d_rest)
+
         for di, (v, vname) in enumerate(zip(dirs, dnames)):
-            yp1, ym1, yp2, ym2 = Y[4 * di], Y[4 * di + 1], Y[4 * di + 2], Y[4 * di + 3]
-            fd1 = (yp1 - ym1) / (2 * eps[0])
-            fd2 = (yp2 - ym2) / (2 * eps[1])
-            fwd = (yp1 - f0) / eps[0]
-            bwd = (f0 - ym1) / eps[0]
+            fd1, fd2, fwd, bwd = fds(E0, di)
             all_smooth = True
             for gi, g in enumerate(GROUPS):
                 if sizes[g] == 0:
@@ -263,8 +421,7 @@ def check_model(R, xml, tags, case, P):
                     P.count("skipped_fd_nonfinite")
                     all_smooth = False
                     continue
-                if abs(fd1[gi] - fd2[gi]) > 1e-5 * scale or \
-                        abs(fwd[gi] - bwd[gi]) > 1e-3 * max(scale, abs(fwd[gi]), abs(bwd[gi])):
+                if not smooth_at(E0, di, gi):
                     P.count("skipped_nonsmooth_point")
                     all_smooth = False
                     continue
@@ -275,7 +432,7 @@ def check_model(R, xml, tags, case, P):
                        sample={"tags": tags, "state_kind": kind, "group": g, "var": vname, "ad": float(a), "fd": float(fd1[gi])}
                        if (di == 0 and gi == 0) else None)
                 if err > 1e-4:
-                    cause = _rest_cause(mj, m, kind, g, vname)
+                    cause = rest_cause(di, gi, "fwd")
                     if cause:
                         P.violation("gradient-differs-from-finite-difference@rest:%s[fwd]" % cause, dict(det, relerr=float(err)))
                     else:
@@ -288,8 +445,8 @@ def check_model(R, xml, tags, case, P):
                 det = dict(base, state=st, state_kind=kind, group="combined", var=vname, mode="rev", ad=r, fd=fdc, fwd=jc)
                 if not np.isfinite(r):
                     if np.isfinite(fdc):
-                        if wraps_geom and np.isfinite(jc):
-                            P.violation("gradient-non-finite:reverse-mode-through-tendon-geom-wrapping", det)
+                        if np.isfinite(jc) and wrap_inside_nan():
+                            P.violation("gradient-non-finite:reverse-mode-through-tendon-wrap-inside-branch", det)
                         else:
                             P.violation("gradient-non-finite:combined-wrt-%s[rev]" % vname + ("@rest" if kind == "rest" else ""), det)
                     continue
@@ -304,9 +461,9 @@ def check_model(R, xml, tags, case, P):
                     err = abs(r - fdc) / max(scale, abs(r))
                     P.note_max("relerr_combined_rev", err)
                     if err > 1e-4:
-                        causes = {_rest_cause(mj, m, kind, g, vname) for g in GROUPS} - {None}
-                        if causes:
-                            P.violation("gradient-differs-from-finite-difference@rest:%s[rev]" % sorted(causes)[0], dict(det, relerr=float(err)))
+                        cause = rest_cause(di, None, "rev")
+                        if cause:
+                            P.violation("gradient-differs-from-finite-difference@rest:%s[rev]" % cause, dict(det, relerr=float(err)))
                         else:
                             P.violation("gradient-differs-from-finite-difference:combined-wrt-%s[rev]" % vname, dict(det, relerr=float(err)))
         if grad is not None and not np.all(np.isfinite(grad)):
@@ -317,8 +474,8 @@ def check_model(R, xml, tags, case, P):
                 if np.any((cols >= off) & (cols < off + sz)):
                     names.append(k)
                 off += sz
-            if wraps_geom and np.all(np.isfinite(jvp)):
-                P.violation("gradient-non-finite:reverse-mode-through-tendon-geom-wrapping", dict(base, state=st, state_kind=kind, wrt=names))
+            if np.all(np.isfinite(jvp)) and wrap_inside_nan():
+                P.violation("gradient-non-finite:reverse-mode-through-tendon-wrap-inside-branch", dict(base, state=st, state_kind=kind, wrt=names))
             else:
                 P.violation("gradient-non-finite:reverse-mode-wrt-%s" % ",".join(names) + ("@rest" if kind == "rest" else ""),
                             dict(base, state=st, state_kind=kind))
